@@ -27,12 +27,14 @@ META = {
             "into the driver under another name), runs every task of a batch alone from a byte snapshot of mjData, maps the "
             "changed bytes to (array, element) and Coq evaluates the model's table on the implementation's island/chunk/taxel "
             "tables: every observed write must be may_write for its task and thread id, and island_idofadr/island_iefcadr must "
-            "equal scan 0 of the counts.  The driver also tests, per task: same outputs with another thread id on poisoned "
+            "equal scan 0 of the counts, and the tactile batches must cover every taxel (tactile_cover_ok; C02_tactile_batches_cover "
+            "proves it of ceil-division batching for every taxel and thread count, C02_tactile_floor_batching_refuted refutes the "
+            "truncating variant).  The driver also tests, per task: same outputs with another thread id on poisoned "
             "scratch, sequential composition = union of the solo effects, reverse order, rerun on top of all other tasks' "
             "outputs, and rerun with every floating-point output location of the other tasks preset to NaN (a read of another "
             "task's output shows even when multiplied by an exact zero).  Reads are only tested through these dependence experiments. "
             "ORACLE on the implementation (the failing-input search): mj_forward, mj_inverse, mj_step x k, mj_forward on mjgen "
-            "models (>= 3 islands, narrow-phase batches of > 16 pairs, tactile sensors with 1200 taxels; PGS/CG/Newton, "
+            "models (>= 3 islands, narrow-phase batches of > 16 pairs, tactile sensors with 1201 / 1301 / 1026 taxels whose last taxel (the pole, last mesh vertex) is pressed; PGS/CG/Newton, "
             "pyramidal/elliptic, dense/sparse, all integrators, noslip) with real pools of 1,2,5,8 workers, repeated, every "
             "mjData array/arena array/contact/scalar compared bit for bit with the pool-less run after each call; the same with a "
             "permuted sequential dispatcher (random task order and thread ids, thread lock set) and with engine_thread.cc running "
@@ -362,7 +364,7 @@ def run(ctx):
         nw += len(r["W"])
     ctx.cov["evaluations"] = len(cases) + len(scases)
     ctx.cov["distinct_nontrivial"] = nontriv
-    ctx.cov["rule"] = ("mjgen models with MULTITREE|FREE|CONTACT plus random features (and tactile units with 1200 taxels), random state, free "
+    ctx.cov["rule"] = ("mjgen models with MULTITREE|FREE|CONTACT plus random features (and tactile units with 1201/1301/1026 taxels, last taxel pressed), random state, free "
                        "roots spread on a grid and/or midphase disabled (narrow-phase batches > 16 pairs); solver x cone x jacobian x "
                        "integrator x noslip drawn per case; O = real pools {1,2,5,8} (thorough 1..8) x 2 repetitions, P = permuted sequential "
                        "dispatch x schedules, F = footprint observation, S = engine_thread.cc under the scheduler shim x schedules; "
